@@ -49,10 +49,13 @@ def scenarios(ctx, n):
             v = spread**2 * r.uniform(0.5, 2.0, size=(C, D))
             info = np.iinfo(kind)
             x = np.clip(np.rint(gen.sample_data(r, w, m, v, N)), info.min, info.max).astype(kind)
+        int_means = bool(r.random() < 0.15)
+        if int_means:  # the model's means are whole numbers in an integer-typed array; the samples are what they are
+            m = np.rint(m)
         perm = r.permutation(N) if i % 3 == 2 else np.arange(N)
         # the machine's count threshold is an M-step setting: statistics do not depend on it
         mvt = float(r.choice([gen.EPS, gen.EPS, 0.5, 3.0]))
-        out.append(dict(C=C, D=D, w=w, m=m, v=v, x=x, x_dtype=str(x.dtype), sizes=sizes, perm=perm, mvt=mvt))
+        out.append(dict(C=C, D=D, w=w, m=m, v=v, x=x, x_dtype=str(x.dtype), sizes=sizes, perm=perm, mvt=mvt, int_means=int_means))
     return out
 
 
@@ -61,6 +64,8 @@ def impl_run(sc):
     import dask.array as da
 
     g = gen.mk_gmm(sc["w"], sc["m"], sc["v"], thr=gen.EPS, mean_var_update_threshold=sc.get("mvt", gen.EPS))
+    if sc.get("int_means"):
+        g.means = np.asarray(sc["m"]).astype(np.int64)  # whole-number means typed in by hand, in an integer-typed array
     x = sc["x"]
     xp = x[sc["perm"]]
     blocks = gen.split(xp, sc["sizes"])
@@ -204,6 +209,8 @@ def oracle(sc):
     w, m, v = (np.asarray(sc[k], dtype=float) for k in ("w", "m", "v"))
     x = np.asarray(sc["x"]).astype(sc.get("x_dtype", "float64"))  # the array the implementation is given (its dtype is part of the input)
     g = gen.mk_gmm(w, m, v, thr=gen.EPS, mean_var_update_threshold=float(sc.get("mvt", gen.EPS)))
+    if sc.get("int_means"):
+        g.means = np.asarray(m).astype(np.int64)
     perm = np.asarray(sc.get("perm", np.arange(len(x))), dtype=int)
     blocks = gen.split(x[perm], sc["sizes"])
     whole = core.impl(lambda: gen.stats_impl(g.acc_stats(x)))
@@ -295,7 +302,7 @@ def search(ctx):
         f = oracle(sc)
         ctx.case(["s", core.tolist(sc["x"]), sc["sizes"]], nontrivial=len(sc["sizes"]) > 1)
         if f:
-            f["input"] = {k: sc[k] for k in ("w", "m", "v", "x", "x_dtype", "sizes", "perm", "mvt") if k in sc}
+            f["input"] = {k: sc[k] for k in ("w", "m", "v", "x", "x_dtype", "sizes", "perm", "mvt", "int_means") if k in sc}
             fails.append(f)
             if len(fails) >= 3:
                 break
